@@ -514,6 +514,8 @@ class Interp:
             if '__truth__' not in v.attrs:
                 v.attrs['__truth__'] = self.fresh('truthy_' + v.kind, BoolS)
             return v.attrs['__truth__']
+        if isinstance(v, (Opaque, Instance)) and '__truth__' in v.attrs:
+            return v.attrs['__truth__']      # (stated by the contract that made the object, or fixed by an earlier test)
         if isinstance(v, (Opaque, Instance)):
             # an object is truthy unless its class defines __bool__ / __len__: for an object standing for an instance of a
             # class of the repository (by kind / class) that defines one of them, the truth value is unknown (but fixed)
